@@ -109,6 +109,7 @@ fn cfg_node(out: &mut Vec<String>, attrs: &[syn::Attribute], span: (usize, usize
 
 #[derive(Default)]
 struct Inner {
+    nested_items: Vec<(usize, usize)>,
     cfg_nodes: Vec<String>,
     loops: Vec<String>,
     tries: Vec<String>,
@@ -125,8 +126,9 @@ impl<'ast> Visit<'ast> for Inner {
     fn visit_attribute(&mut self, a: &'ast syn::Attribute) {
         self.attrs.push(br(a.span()));
     }
-    fn visit_item(&mut self, _i: &'ast syn::Item) {
-        // nested items are not part of the function's own control flow
+    fn visit_item(&mut self, i: &'ast syn::Item) {
+        // nested items are not part of the function's own control flow; nested fns are reported separately (hoisted by the extractor)
+        self.nested_items.push(br(i.span()));
     }
     fn visit_arm(&mut self, a: &'ast syn::Arm) {
         cfg_node(&mut self.cfg_nodes, &a.attrs, br(a.span()));
@@ -149,7 +151,7 @@ impl<'ast> Visit<'ast> for Inner {
             }
         }
         self.closures
-            .push(format!("{{\"span\":{},\"body\":{},\"wilds\":[{}]}}", sp(br(c.span())), sp(br(c.body.span())), wilds.join(",")));
+            .push(format!("{{\"span\":{},\"body\":{},\"wilds\":[{}],\"body_is_block\":{}}}", sp(br(c.span())), sp(br(c.body.span())), wilds.join(","), matches!(&*c.body, syn::Expr::Block(_))));
         self.depth_closure += 1;
         visit::visit_expr_closure(self, c);
         self.depth_closure -= 1;
@@ -241,6 +243,30 @@ impl<'ast> Visit<'ast> for Inner {
             sp(delim_inner(&m.mac)),
             js(&compact(m.mac.tokens.clone()))
         ));
+    }
+}
+
+fn leaf_tails(e: &syn::Expr, out: &mut Vec<(usize, usize)>) {
+    match e {
+        syn::Expr::Match(m) => {
+            for a in &m.arms {
+                leaf_tails(&a.body, out);
+            }
+        }
+        syn::Expr::If(i) => {
+            block_tail(&i.then_branch, out);
+            if let Some((_, els)) = &i.else_branch {
+                leaf_tails(els, out);
+            }
+        }
+        syn::Expr::Block(b) => block_tail(&b.block, out),
+        other => out.push(br(other.span())),
+    }
+}
+
+fn block_tail(b: &syn::Block, out: &mut Vec<(usize, usize)>) {
+    if let Some(syn::Stmt::Expr(e, None)) = b.stmts.last() {
+        leaf_tails(e, out);
     }
 }
 
@@ -366,10 +392,18 @@ impl Top {
     ) {
         let mut inner = Inner::default();
         let mut tail = "null".to_string();
+        let mut leaves: Vec<(usize, usize)> = vec![];
+        let mut nested_fns: Vec<&syn::ItemFn> = vec![];
         if let Some(b) = block {
             inner.visit_block(b);
             if let Some(syn::Stmt::Expr(e, None)) = b.stmts.last() {
                 tail = sp(br(e.span()));
+            }
+            block_tail(b, &mut leaves);
+            for st in &b.stmts {
+                if let syn::Stmt::Item(syn::Item::Fn(f)) = st {
+                    nested_fns.push(f);
+                }
             }
         }
         let ret = match &sig.output {
@@ -415,7 +449,7 @@ impl Top {
             })
             .collect();
         let s = format!(
-            "{{\"kind\":\"fn\",\"path\":{},\"span\":{},\"attrs\":[{}],\"vis\":{},\"sig\":{},\"ret\":{},\"where\":{},\"body\":{},\"tail\":{},\"trait_impl\":{},\"trait_def\":{},\"is_async\":{},\"params\":[{}],\"loops\":[{}],\"tries\":[{}],\"macros\":[{}],\"returns\":[{}],\"instruments\":[{}],\"closures\":[{}],\"awaits\":[{}],\"cfg\":[{}],\"cfg_nodes\":[{}]}}",
+            "{{\"kind\":\"fn\",\"path\":{},\"span\":{},\"attrs\":[{}],\"vis\":{},\"sig\":{},\"ret\":{},\"where\":{},\"body\":{},\"tail\":{},\"trait_impl\":{},\"trait_def\":{},\"is_async\":{},\"params\":[{}],\"loops\":[{}],\"tries\":[{}],\"macros\":[{}],\"returns\":[{}],\"instruments\":[{}],\"closures\":[{}],\"awaits\":[{}],\"cfg\":[{}],\"cfg_nodes\":[{}],\"leaf_tails\":[{}],\"nested_items\":[{}]}}",
             js(&path),
             sp(br(whole)),
             all_attrs.iter().map(|a| sp(*a)).collect::<Vec<_>>().join(","),
@@ -437,9 +471,15 @@ impl Top {
             inner.closures.join(","),
             inner.awaits.join(","),
             cfg_strs(attrs).iter().map(|d| js(d)).collect::<Vec<_>>().join(","),
-            inner.cfg_nodes.join(",")
+            inner.cfg_nodes.join(","),
+            leaves.iter().map(|a| sp(*a)).collect::<Vec<_>>().join(","),
+            inner.nested_items.iter().map(|a| sp(*a)).collect::<Vec<_>>().join(",")
         );
         self.out.push(s);
+        for f in nested_fns {
+            let p = format!("{}::{}", path, f.sig.ident);
+            self.emit_fn(p, f.span(), &f.attrs, &f.vis, &f.sig, Some(&f.block), false, false);
+        }
     }
 
     fn item(&mut self, it: &syn::Item) {
